@@ -43,7 +43,8 @@ def generate(tier, rng):
             cases.append({"op": "find", "tier": t, "q": q, "substr": rng.random() < 0.5, "scale": sc})
         elif u < 0.24:
             t = gen.random_itier(rng, tmax=30, maxn=6, long_p=0.015) if rng.random() < 0.6 else gen.random_ptier(rng, tmax=30, maxn=6, long_p=0.015)
-            q = rng.choice(["a", "A", "a|b", "^a", "b$", ".", "x y", "[ab]", "a-", "^$", "É", "é"])
+            q = rng.choice(["a", "A", "a|b", "^a", "b$", ".", "x y", "[ab]", "a-", "^$", "É", "é",
+                            r"\S", r"\s", r"\d", r"\D", r"\w+$", r"\W", r"a\b", r"\Bb"])
             cases.append({"op": "findre", "tier": t, "q": q, "scale": sc})
         elif u < 0.34:
             t = gen.random_itier(rng, tmax=30, maxn=6, long_p=0.015)
@@ -107,7 +108,7 @@ def generate(tier, rng):
             mx = None if rng.random() < 0.15 else rng.choice([30, max([x[1] for x in iv] + [20]), 35])
             cases.append({"op": "invert", "iv": iv, "mn": mn, "mx": mx, "scale": sc})
         else:
-            t = gen.random_itier(rng, tmax=30, maxn=5) if rng.random() < 0.6 else gen.random_ptier(rng, tmax=30, maxn=5)
+            t = gen.random_itier(rng, tmax=30, maxn=5) if rng.random() < 0.6 else gen.random_ptier(rng, tmax=30, maxn=5, distinct=rng.random() < 0.6)
             corrupt = None
             if rng.random() < 0.7:
                 corrupt = rng.choice(["min_up", "max_down", "swap", "reverse_entry", "overlap", "overlap", "none"])
@@ -297,6 +298,14 @@ def _equality(case, sc):
         fails.append("Textgrid == does not distinguish a tier name")
     if t == "not a tier" or tg1 == 5:
         fails.append("== with a foreign type is True")
+    # != is the negation of ==, on tiers, textgrids and single entries (also for entries equal up to rounding noise)
+    from praatio.utilities.constants import Interval, Point
+    pairs_ne = [(t, core.mk_tier(spec, sc)), (t, core.mk_tier(dict(spec, name=spec["name"] + "x"), sc)), (tg1, tg2), (tg1, tg3),
+                (Interval(0.1 + 0.2, 1.0, "x"), Interval(0.3, 1.0, "x")), (Interval(0.5, 1.0, "x"), Interval(0.5, 1.0, "x")),
+                (Interval(0.5, 1.0, "x"), Interval(0.5, 1.0, "y")), (Point(0.1 + 0.2, "x"), Point(0.3, "x")), (Point(0.5, "x"), Point(0.5, "y"))]
+    for a, b in pairs_ne:
+        if (a != b) == (a == b):
+            fails.append("== and != agree on %r and %r" % (type(a).__name__, b if isinstance(b, tuple) else type(b).__name__))
     return {"fails": fails}
 
 
